@@ -283,8 +283,8 @@ def c06_matcher(fnd, case):
 
 
 def mc_lexer(ev, tier):
-    for name, par in [('MC_Lexer N=2', dict(N=2, L=3))] + ([('MC_Lexer N=3', dict(N=3, L=3))] if tier == 'thorough' else []):
-        res = C.tlc('MC_Lexer', MC_CFG % par, timeout=3000)
+    for name, par in [('MC_Lexer N=2', dict(N=2, L=3))] + ([('MC_Lexer N=3', dict(N=3, L=3)), ('MC_Lexer N=4 flat', dict(N=4, L=3))] if tier == 'thorough' else []):
+        res = C.tlc('MC_Lexer', (MC_CFG % par).replace('SPECIFICATION Spec', 'SPECIFICATION SpecFlat' if 'flat' in name else 'SPECIFICATION Spec'), timeout=3000)
         C.tlc_must_run(res, name)
         ev.add_tlc(name, res, 'design')
         if not res.ok:
@@ -292,7 +292,7 @@ def mc_lexer(ev, tier):
     # model sensitivity: the three deviations recorded as known findings are refutations of the stronger statements
     for key, spec_, inv, par in (('model_finds_spelling_deviation', 'Spec', 'L1IsL0', dict(N=2, L=2)),
                                  ('model_finds_embedded_order_deviation', 'SpecFlat', 'L1IsL0UnlessSpelling', dict(N=3, L=2)),
-                                 ('model_finds_keyword_lost_in_context', 'SpecFlat', 'RestrictionRefines', dict(N=4, L=2))):
+                                 ('model_finds_keyword_lost_in_context', 'SpecFlat', 'RestrictionRefinesByProvisoAlone', dict(N=4, L=2))):
         cfg = 'SPECIFICATION %s\nCONSTANTS\n  MaxTerms = %d\n  MaxLen = %d\nINVARIANT %s\nCHECK_DEADLOCK FALSE\n' % (spec_, par['N'], par['L'], inv)
         r2 = C.tlc('MC_Lexer', cfg, timeout=1500)
         C.tlc_must_run(r2, key)
